@@ -1,183 +1,659 @@
-(* The database-independent part of the system invariant: every submission that is still waiting for
-   its subsystem was emitted at some tick t <= now and satisfies the emission discipline [sub_at t];
-   every fan-out instance keeps well-formed child slots.  Preserved by every step. *)
-From RV Require Import Mon Discipline.
+(* The system invariant: (1) promise ids are unique; (2) every submission still waiting for its subsystem
+   was emitted at some tick t <= now under the emission discipline, and every completion waiting in the
+   completion queue tells the truth about the durable state (monotonically); (3) every coroutine instance
+   holds only records that are rows of the database and, if it awaits submission n, the submission (id, n)
+   in flight is the one its program point expects.  Preserved by every step of every schedule. *)
+From RV Require Import Mon StoreLocks StorePromises Discipline.
 From Coq Require Import Lia.
 
-Definition pend_ok (now : Z) (p : pend) : Prop :=
-  pd_ready p = None -> exists t, t <= now /\ sub_at t (pd_sub p).
+Definition pend_ok (d : db) (now : Z) (p : pend) : Prop :=
+  match pd_ready p with
+  | None => exists t, t <= now /\ sub_at d t (pd_sub p)
+  | Some c => rdy_ok d (pd_sub p) c
+  end.
+
+Definition inst_ok (d : db) (pl : list pend) (i : inst) : Prop :=
+  st_ok d (i_st i) /\
+  (forall p, In p pl -> pd_id p = i_id i -> (pd_n p < i_next i)%nat) /\
+  (forall k n, i_st i = CSeq k n ->
+               (n < i_next i)%nat /\ forall p, In p pl -> pd_id p = i_id i -> pd_n p = n -> k_expects k (pd_sub p)).
 
 Definition SInv (s : sys) : Prop :=
-  Forall (pend_ok (s_now s)) (s_pend s) /\ Forall (fun i => st_ok (i_st i)) (s_insts s).
+  prom_uniq (s_db s) /\
+  Forall (pend_ok (s_db s) (s_now s)) (s_pend s) /\
+  Forall (inst_ok (s_db s) (s_pend s)) (s_insts s) /\
+  NoDup (map i_id (s_insts s)).
 
-Lemma pend_ok_mono : forall now now' p, now <= now' -> pend_ok now p -> pend_ok now' p.
-Proof. intros now now' p Hle H Hr. destruct (H Hr) as [t [Ht Hs]]. exists t. split; [lia|exact Hs]. Qed.
+Lemma SInv_init : SInv (sys0 db0).
+Proof. repeat split; constructor. Qed.
+
+(* ---------- monotonicity ---------- *)
+
+Lemma pend_ok_mono : forall d d' now now' p, prom_le d d' -> now <= now' -> pend_ok d now p -> pend_ok d' now' p.
+Proof.
+  intros d d' now now' p L Hle H. unfold pend_ok in *. destruct (pd_ready p).
+  - eapply rdy_ok_mono; eassumption.
+  - destruct H as [t [Ht Hs]]. exists t. split; [lia|eapply sub_at_mono_db; eassumption].
+Qed.
+
+Lemma inst_ok_mono : forall d d' pl i, prom_le d d' -> inst_ok d pl i -> inst_ok d' pl i.
+Proof. intros d d' pl i L [A [B C]]. split; [eapply st_ok_mono; eassumption|split; assumption]. Qed.
+
+Lemma inst_ok_sub : forall d pl pl' i, (forall p, In p pl' -> In p pl) -> inst_ok d pl i -> inst_ok d pl' i.
+Proof.
+  intros d pl pl' i S [A [B C]]. split; [exact A|]. split.
+  - intros p Hp. apply B. apply S. exact Hp.
+  - intros k n E. destruct (C k n E) as [C1 C2]. split; [exact C1|]. intros p Hp. apply C2. apply S. exact Hp.
+Qed.
+
+(* ---------- pending list manipulations ---------- *)
 
 Lemma remove_pend_sub : forall id n pl p, In p (remove_pend id n pl) -> In p pl.
 Proof. intros id n pl p H. apply filter_In in H. tauto. Qed.
 
-Lemma take_deliveries_sub : forall dl pl ds pl', take_deliveries dl pl = Some (ds, pl') -> forall p, In p pl' -> In p pl.
+Lemma take_deliveries_spec : forall dl pl ds pl',
+    take_deliveries dl pl = Some (ds, pl') ->
+    (forall p, In p pl' -> In p pl) /\
+    (forall id n c, In (id, (n, c)) ds -> exists p, In p pl /\ pd_id p = id /\ pd_n p = n /\ pd_ready p = Some c).
 Proof.
-  induction dl as [|[id n] dl IH]; intros pl ds pl' H p Hp; cbn in H.
-  - inversion H; subst; exact Hp.
-  - destruct (find_pend id n pl) as [q|]; [|discriminate]. destruct (pd_ready q); [|discriminate].
+  induction dl as [|[id n] dl IH]; intros pl ds pl' H; cbn in H.
+  - inversion H; subst. split; [auto|]. intros ? ? ? [].
+  - destruct (find_pend id n pl) as [q|] eqn:F; [|discriminate]. destruct (pd_ready q) as [c|] eqn:R; [|discriminate].
     destruct (take_deliveries dl (remove_pend id n pl)) as [[ds2 pl2]|] eqn:E; [|discriminate].
-    inversion H; subst. eapply remove_pend_sub. eapply IH; eassumption.
+    inversion H; subst. destruct (IH _ _ _ E) as [I1 I2]. split.
+    + intros p Hp. eapply remove_pend_sub. apply I1. exact Hp.
+    + intros id' n' c' [Hin|Hin].
+      * inversion Hin; subst. apply find_some in F. destruct F as [F1 F2]. unfold pend_is in F2.
+        apply andb_true_iff in F2. destruct F2 as [F2 F3]. apply String.eqb_eq in F2. apply Nat.eqb_eq in F3.
+        exists q. tauto.
+      * destruct (I2 id' n' c' Hin) as [p [Hp Hrest]]. exists p. split; [eapply remove_pend_sub; exact Hp|exact Hrest].
 Qed.
 
-Lemma set_ready_ok : forall now id n c pl, Forall (pend_ok now) pl -> Forall (pend_ok now) (set_ready id n c pl).
+Lemma set_ready_forall : forall (P : pend -> Prop) id n c pl,
+    Forall P pl ->
+    (forall p, find_pend id n pl = Some p -> P (mkPend (pd_id p) (pd_n p) (pd_sub p) (pd_group p) (Some c))) ->
+    Forall P (set_ready id n c pl).
 Proof.
-  intros now id n c pl H. unfold set_ready. apply Forall_forall. intros p Hp. apply in_map_iff in Hp.
-  destruct Hp as [q [Hq Hin]]. destruct (pend_is id n q); subst.
-  - intros Hr; cbn in Hr; discriminate.
-  - eapply Forall_forall; eassumption.
+  induction pl as [|p pl IH]; intros H Hf; cbn; [constructor|]. inversion H; subst. unfold find_pend in Hf. cbn in Hf.
+  destruct (pend_is id n p) eqn:E.
+  - constructor; [apply Hf; reflexivity|assumption].
+  - constructor; [assumption|]. apply IH; [assumption|]. exact Hf.
 Qed.
 
-Lemma set_batch_ready_ok : forall now batch rss pl, Forall (pend_ok now) pl -> Forall (pend_ok now) (set_batch_ready batch rss pl).
+Lemma set_ready_keys : forall id n c pl, map (fun p => (pd_id p, pd_n p, pd_sub p)) (set_ready id n c pl) = map (fun p => (pd_id p, pd_n p, pd_sub p)) pl.
 Proof.
-  induction batch as [|e batch IH]; intros rss pl H; cbn; [exact H|]. apply IH. apply set_ready_ok. exact H.
+  induction pl as [|p pl IH]; cbn; [reflexivity|]. destruct (pend_is id n p); cbn; [reflexivity|]. rewrite IH. reflexivity.
 Qed.
 
-Lemma number_subs_ok : forall id g subs n t, Forall (sub_at t) subs -> Forall (pend_ok t) (number_subs id g n subs).
+Lemma find_pend_set_ready_other : forall id n c id' n' pl,
+    pend_is id' n' (mkPend id n (SStore []) 0 None) = false ->
+    option_map (fun p => (pd_id p, pd_n p, pd_sub p, pd_ready p)) (find_pend id' n' (set_ready id n c pl)) =
+    option_map (fun p => (pd_id p, pd_n p, pd_sub p, pd_ready p)) (find_pend id' n' pl).
 Proof.
-  induction subs as [|s subs IH]; intros n t H; cbn; [constructor|]. inversion H; subst.
-  constructor; [|apply IH; assumption]. intros _. exists t. cbn. split; [lia|assumption].
+  intros id n c id' n' pl Hne. unfold find_pend. induction pl as [|p pl IH]; cbn; [reflexivity|].
+  destruct (pend_is id n p) eqn:E; cbn.
+  - assert (pend_is id' n' p = false) as ->.
+    { unfold pend_is in *. cbn in Hne. apply andb_true_iff in E. destruct E as [E1 E2].
+      apply String.eqb_eq in E1. apply Nat.eqb_eq in E2. subst. exact Hne. }
+    assert (pend_is id' n' (mkPend (pd_id p) (pd_n p) (pd_sub p) (pd_group p) (Some c)) = false) as ->.
+    { unfold pend_is in *. cbn in *. apply andb_true_iff in E. destruct E as [E1 E2].
+      apply String.eqb_eq in E1. apply Nat.eqb_eq in E2. subst. exact Hne. }
+    reflexivity.
+  - destruct (pend_is id' n' p); [reflexivity|exact IH].
 Qed.
 
-Lemma run_insts_ok : forall cfg now g ds il,
-    Forall (fun i => st_ok (i_st i)) il ->
-    let '(il', pl, ob) := run_insts cfg now g ds il in
-    Forall (fun i => st_ok (i_st i)) il' /\ Forall (pend_ok now) pl.
+Lemma number_subs_in : forall id g subs n p,
+    In p (number_subs id g n subs) ->
+    pd_id p = id /\ (n <= pd_n p < n + List.length subs)%nat /\ nth_error subs (pd_n p - n) = Some (pd_sub p) /\ pd_ready p = None.
 Proof.
-  induction il as [|i il IH]; intros H; cbn; [split; constructor|]. inversion H; subst.
-  specialize (IH H3). destruct (run_insts cfg now g ds il) as [[il2 pl2] ob2]. destruct IH as [IH1 IH2].
-  pose proof (run_inst_ok cfg (i_st i) (deliveries_for (i_id i) ds) now (i_next i) H2) as [Ho1 Ho2].
-  split.
-  - destruct (o_state _) eqn:E; try exact IH1; constructor; cbn; try exact IH1; exact Ho2.
-  - apply Forall_app; split; [apply number_subs_ok; exact Ho1|exact IH2].
+  induction subs as [|s subs IH]; intros n p H; cbn in H; [contradiction|]. destruct H as [H|H].
+  - subst p. cbn. rewrite Nat.sub_diag. cbn. repeat split; lia.
+  - destruct (IH (S n) p H) as [A [B [C D]]]. cbn. split; [exact A|]. split; [lia|]. split; [|exact D].
+    replace (pd_n p - n)%nat with (S (pd_n p - S n)) by lia. cbn. exact C.
 Qed.
 
-Lemma start_insts_ok : forall now starts g,
-    Forall (fun x => out_ok now (snd x)) starts ->
-    let '(il', pl, ob) := start_insts starts g in
-    Forall (fun i => st_ok (i_st i)) il' /\ Forall (pend_ok now) pl.
+(* ---------- what run_insts / start_insts produce ---------- *)
+
+Definition inst_step (cfg : config) (now : Z) (ds : list (string * (nat * cpl))) (i : inst) : step_out :=
+  run_inst cfg (i_st i) (deliveries_for (i_id i) ds) now (i_next i).
+
+Lemma run_insts_spec : forall cfg now g ds il,
+    let '(il', pl', ob) := run_insts cfg now g ds il in
+    (forall i', In i' il' -> exists i, In i il /\ i_id i' = i_id i /\ i_st i' = o_state (inst_step cfg now ds i) /\
+                              i_next i' = (i_next i + List.length (o_subs (inst_step cfg now ds i)))%nat) /\
+    (forall p, In p pl' -> exists i, In i il /\ In p (number_subs (i_id i) g (i_next i) (o_subs (inst_step cfg now ds i)))) /\
+    (forall id, In id (map i_id il') -> In id (map i_id il)) /\
+    (NoDup (map i_id il) -> NoDup (map i_id il')).
 Proof.
-  induction starts as [|[id o] rest IH]; intros g H; cbn; [split; constructor|]. inversion H; subst.
-  specialize (IH g H3). destruct (start_insts rest g) as [[il pl] ob]. destruct IH as [IH1 IH2].
-  destruct H2 as [Ho1 Ho2]. cbn in *. split.
-  - destruct (o_state o) eqn:E; try exact IH1; constructor; cbn; try exact IH1; exact Ho2.
-  - apply Forall_app; split; [apply number_subs_ok; exact Ho1|exact IH2].
+  induction il as [|i il IH]; cbn; [repeat split; intros; try contradiction; constructor|].
+  destruct (run_insts cfg now g ds il) as [[il2 pl2] ob2]. destruct IH as [A [B [C D]]].
+  change (run_inst cfg (i_st i) (deliveries_for (i_id i) ds) now (i_next i)) with (inst_step cfg now ds i).
+  set (o := inst_step cfg now ds i) in *.
+  assert (Hkeep : forall i', In i' (match o_state o with CDone => il2 | _ => mkInst (i_id i) (o_state o) (i_next i + List.length (o_subs o)) :: il2 end) ->
+                             i' = mkInst (i_id i) (o_state o) (i_next i + List.length (o_subs o)) \/ In i' il2).
+  { intros i' H. destruct (o_state o); cbn in H; try tauto; destruct H as [H|H]; auto. }
+  split; [|split; [|split]].
+  - intros i' Hi'. destruct (Hkeep i' Hi') as [->|Hin].
+    + exists i. cbn. repeat split; auto.
+    + destruct (A i' Hin) as [j [Hj Hrest]]. exists j. tauto.
+  - intros p Hp. apply in_app_or in Hp. destruct Hp as [Hp|Hp].
+    + exists i. tauto.
+    + destruct (B p Hp) as [j [Hj Hrest]]. exists j. tauto.
+  - intros id Hid. apply in_map_iff in Hid. destruct Hid as [i' [Hid Hi']]. destruct (Hkeep i' Hi') as [->|Hin].
+    + left. subst id. reflexivity.
+    + right. apply C. apply in_map_iff. exists i'. tauto.
+  - intros U. inversion U; subst. specialize (D H2).
+    destruct (o_state o); try exact D; cbn; constructor; try exact D; intros Hc; apply H1; apply C; exact Hc.
 Qed.
 
-Lemma SInv_init : forall d, SInv (sys0 d).
-Proof. intros d. split; constructor. Qed.
-
-Lemma SInv_step : forall cfg s d s' ob, SInv s -> step cfg s d = Some (s', ob) -> SInv s'.
+Lemma start_insts_spec : forall starts g,
+    let '(il', pl', ob) := start_insts starts g in
+    (forall i', In i' il' -> exists o, In (i_id i', o) starts /\ i_st i' = o_state o /\ i_next i' = List.length (o_subs o)) /\
+    (forall p, In p pl' -> exists id o, In (id, o) starts /\ In p (number_subs id g 0 (o_subs o))) /\
+    (forall id, In id (map i_id il') -> In id (map fst starts)) /\
+    (NoDup (map fst starts) -> NoDup (map i_id il')).
 Proof.
-  intros cfg s d s' ob [Hp Hi] H. destruct d; cbn in H.
-  - destruct (t <? s_now s) eqn:Et; [discriminate|]. apply Z.ltb_ge in Et.
-    destruct (take_deliveries deliver (s_pend s)) as [[ds pl]|] eqn:Etd; [|discriminate].
-    pose proof (run_insts_ok cfg t (s_group s) ds (s_insts s) Hi) as H1.
-    destruct (run_insts cfg t (s_group s) ds (s_insts s)) as [[il1 pl1] ob1]. destruct H1 as [H1a H1b].
-    match type of H with context [start_insts ?st ?g] =>
-      assert (Hst : Forall (fun x => out_ok t (snd x)) st) end.
-    { apply Forall_app; split; apply Forall_forall; intros x Hx; apply in_map_iff in Hx;
-        destruct Hx as [y [Hy _]]; subst; cbn; [apply start_bg_ok|apply start_req_ok]. }
-    pose proof (start_insts_ok t _ (s_group s) Hst) as H2.
-    destruct (start_insts _ (s_group s)) as [[il2 pl2] ob2]. destruct H2 as [H2a H2b].
-    inversion H; subst; clear H. split; cbn.
-    + apply Forall_app; split; [|apply Forall_app; split; assumption].
-      apply Forall_forall. intros p Hin. eapply pend_ok_mono; [exact Et|].
-      eapply Forall_forall; [exact Hp|]. eapply take_deliveries_sub; eassumption.
-    + apply Forall_app; split; assumption.
-  - destruct (batch_txns batch (s_pend s)); [|discriminate].
-    destruct (negb (nodup_items batch)); [discriminate|].
-    destruct (c_fifo cfg && negb (fifo_ok batch (s_pend s))); [discriminate|].
-    destruct (exec_batch (s_db s) l) as [[d' rss]|]; inversion H; subst; clear H; (split; cbn; [|exact Hi]);
-      apply set_batch_ready_ok; exact Hp.
-  - destruct (find_pend id n (s_pend s)); [|discriminate].
-    destruct (unready p); inversion H; subst; clear H. split; cbn; [apply set_ready_ok; exact Hp|exact Hi].
-  - destruct (find_pend id n (s_pend s)); [|discriminate].
-    destruct (pd_sub p); try discriminate. destruct (pd_ready p); inversion H; subst; clear H.
-    split; cbn; [apply set_ready_ok; exact Hp|exact Hi].
-  - destruct (find_pend id n (s_pend s)); [|discriminate].
-    destruct (pd_sub p); try discriminate. destruct (pd_ready p); inversion H; subst; clear H.
-    split; cbn; [apply set_ready_ok; exact Hp|exact Hi].
-  - inversion H; subst. split; constructor.
+  induction starts as [|[id o] rest IH]; intros g; cbn; [repeat split; intros; try contradiction; constructor|].
+  specialize (IH g). destruct (start_insts rest g) as [[il pl] ob]. destruct IH as [A [B [C D]]].
+  assert (Hkeep : forall i', In i' (match o_state o with CDone => il | _ => mkInst id (o_state o) (List.length (o_subs o)) :: il end) ->
+                             i' = mkInst id (o_state o) (List.length (o_subs o)) \/ In i' il).
+  { intros i' H. destruct (o_state o); cbn in H; try tauto; destruct H as [H|H]; auto. }
+  split; [|split; [|split]].
+  - intros i' Hi'. destruct (Hkeep i' Hi') as [->|Hin].
+    + exists o. cbn. repeat split; auto.
+    + destruct (A i' Hin) as [o' [Ho' Hrest]]. exists o'. tauto.
+  - intros p Hp. apply in_app_or in Hp. destruct Hp as [Hp|Hp].
+    + exists id, o. tauto.
+    + destruct (B p Hp) as [id' [o' [Ho' Hrest]]]. exists id', o'. tauto.
+  - intros id' Hid. apply in_map_iff in Hid. destruct Hid as [i' [Hid Hi']]. destruct (Hkeep i' Hi') as [->|Hin].
+    + left. subst id'. reflexivity.
+    + right. apply C. apply in_map_iff. exists i'. tauto.
+  - intros U. inversion U; subst. specialize (D H2).
+    destruct (o_state o); try exact D; cbn; constructor; try exact D; intros Hc; apply H1; apply C; exact Hc.
 Qed.
 
-(* the transactions of an executed batch were waiting submissions: each was emitted at some t <= now *)
-Lemma batch_txns_ok : forall now batch pl txns,
-    Forall (pend_ok now) pl -> batch_txns batch pl = Some txns ->
-    Forall (fun x => exists t, t <= now /\ Forall (cmd_at t) (fst x)) txns.
+(* ---------- id freshness ---------- *)
+
+Lemma ids_fresh_spec : forall s ids, ids_fresh s ids = true ->
+    NoDup ids /\ forall id, In id ids -> (forall i, In i (s_insts s) -> i_id i <> id) /\ (forall p, In p (s_pend s) -> pd_id p <> id).
+Proof.
+  induction ids as [|id ids IH]; cbn; intros H; [split; [constructor|intros ? []]|].
+  apply andb_true_iff in H. destruct H as [H H3]. apply andb_true_iff in H. destruct H as [H1 H2].
+  destruct (IH H3) as [N F]. apply negb_true_iff in H1, H2. split.
+  - constructor; [|exact N]. intros Hin. assert (existsb (String.eqb id) ids = true); [|congruence].
+    apply existsb_exists. exists id. split; [exact Hin|apply String.eqb_refl].
+  - intros id' [<-|Hin]; [|apply F; exact Hin]. unfold id_used in H1. apply orb_false_iff in H1. destruct H1 as [U1 U2]. split.
+    + intros i Hi E. assert (existsb (fun i => String.eqb (i_id i) id) (s_insts s) = true); [|congruence].
+      apply existsb_exists. exists i. split; [exact Hi|]. rewrite E. apply String.eqb_refl.
+    + intros p Hp E. assert (existsb (fun p => String.eqb (pd_id p) id) (s_pend s) = true); [|congruence].
+      apply existsb_exists. exists p. split; [exact Hp|]. rewrite E. apply String.eqb_refl.
+Qed.
+
+(* ---------- an instance after its step, against the final pending list ---------- *)
+
+Lemma inst_after : forall d now g id next st o PL,
+    st_ok d st ->
+    (o = mkOut st [] None \/ out_ok d now next o) ->
+    (forall k n, st = CSeq k n -> (n < next)%nat) ->
+    (* every pending submission of this id is an old one (numbered below next, and expected by st) or one of
+       the submissions of this very step *)
+    (forall p, In p PL -> pd_id p = id ->
+               ((pd_n p < next)%nat /\ (forall k, st = CSeq k (pd_n p) -> k_expects k (pd_sub p))) \/
+               In p (number_subs id g next (o_subs o))) ->
+    inst_ok d PL (mkInst id (o_state o) (next + List.length (o_subs o))).
+Proof.
+  intros d now g id next st o PL Hst Ho Hlt Hp. unfold inst_ok; cbn. destruct Ho as [->|[Hsub [Hso [Hl _]]]]; cbn in *.
+  - split; [exact Hst|]. split.
+    + intros p Hin Hid. destruct (Hp p Hin Hid) as [[A _]|[]]. lia.
+    + intros k n E. split; [specialize (Hlt k n E); lia|]. intros p Hin Hid Hn. destruct (Hp p Hin Hid) as [[_ B]|[]].
+      subst n. apply B. exact E.
+  - split; [exact Hso|]. split.
+    + intros p Hin Hid. destruct (Hp p Hin Hid) as [[A _]|Hn]; [lia|].
+      destruct (number_subs_in _ _ _ _ _ Hn) as [_ [B _]]. lia.
+    + intros k n E. unfold link_ok in Hl. rewrite E in Hl. destruct Hl as [Hle [s [Hs He]]]. split.
+      * assert (n - next < List.length (o_subs o))%nat by (apply nth_error_Some; congruence). lia.
+      * intros p Hin Hid Hn. destruct (Hp p Hin Hid) as [[A _]|Hnew]; [lia|].
+        destruct (number_subs_in _ _ _ _ _ Hnew) as [_ [_ [C _]]]. subst n. rewrite C in Hs. inversion Hs; subst. exact He.
+Qed.
+
+Lemma new_pend_ok : forall d now id g next o p,
+    Forall (sub_at d now) (o_subs o) -> In p (number_subs id g next (o_subs o)) -> pend_ok d now p.
+Proof.
+  intros d now id g next o p Hs Hin. destruct (number_subs_in _ _ _ _ _ Hin) as [_ [_ [C D]]].
+  unfold pend_ok. rewrite D. exists now. split; [lia|]. eapply Forall_forall; [exact Hs|]. eapply nth_error_In; exact C.
+Qed.
+
+Lemma inst_same_id : forall il i j, NoDup (map i_id il) -> In i il -> In j il -> i_id i = i_id j -> i = j.
+Proof.
+  induction il as [|x il IH]; cbn; intros i j U Hi Hj E; [contradiction|]. inversion U; subst.
+  destruct Hi as [Hi|Hi], Hj as [Hj|Hj]; subst; auto.
+  - exfalso. apply H1. rewrite E. apply in_map. exact Hj.
+  - exfalso. apply H1. rewrite <- E. apply in_map. exact Hi.
+Qed.
+
+Lemma starts_same_id : forall (starts : list (string * step_out)) id o o',
+    NoDup (map fst starts) -> In (id, o) starts -> In (id, o') starts -> o = o'.
+Proof.
+  induction starts as [|[x y] starts IH]; cbn; intros id o o' U H1 H2; [contradiction|]. inversion U; subst.
+  destruct H1 as [H1|H1], H2 as [H2|H2].
+  - congruence.
+  - inversion H1; subst. exfalso. apply H3. apply in_map_iff. exists (id, o'). tauto.
+  - inversion H2; subst. exfalso. apply H3. apply in_map_iff. exists (id, o). tauto.
+  - eapply IH; eassumption.
+Qed.
+
+Lemma deliveries_for_in : forall id ds n c, In (n, c) (deliveries_for id ds) -> In (id, (n, c)) ds.
+Proof.
+  intros id ds n c H. unfold deliveries_for in H. apply in_map_iff in H. destruct H as [[id' x] [Hx Hin]].
+  apply filter_In in Hin. destruct Hin as [Hin He]. cbn in *. apply String.eqb_eq in He. subst. exact Hin.
+Qed.
+
+Definition dir_wf (d : directive) : Prop :=
+  match d with DTick _ _ _ arrive => Forall (fun x => req_wf (snd x)) arrive | _ => True end.
+
+Lemma SInv_tick : forall cfg s t dl bgs arr s' ob,
+    SInv s -> dir_wf (DTick t dl bgs arr) -> step cfg s (DTick t dl bgs arr) = Some (s', ob) -> SInv s'.
+Proof.
+  intros cfg s t dl bgs arr s' ob [U [HP [HI ND]]] Hwf H. cbn in H, Hwf.
+  destruct (t <? s_now s) eqn:Et; [discriminate|]. apply Z.ltb_ge in Et.
+  destruct (negb (ids_fresh s (map fst bgs ++ map fst arr))) eqn:Ef; [discriminate|]. apply negb_false_iff in Ef.
+  destruct (take_deliveries dl (s_pend s)) as [[ds pl]|] eqn:Etd; [|discriminate].
+  destruct (take_deliveries_spec _ _ _ _ Etd) as [Hsub Hdel].
+  pose proof (run_insts_spec cfg t (s_group s) ds (s_insts s)) as R1.
+  destruct (run_insts cfg t (s_group s) ds (s_insts s)) as [[il1 pl1] ob1]. destruct R1 as [R1a [R1b [R1c R1d]]].
+  set (starts := (map (fun x => (fst x, start_bg cfg (snd x) t 0)) bgs ++ map (fun x => (fst x, start_req (snd x) t 0)) arr)%list) in *.
+  pose proof (start_insts_spec starts (s_group s)) as R2.
+  destruct (start_insts starts (s_group s)) as [[il2 pl2] ob2]. destruct R2 as [R2a [R2b [R2c R2d]]].
+  inversion H; subst; clear H. cbn.
+  destruct (ids_fresh_spec _ _ Ef) as [Fnd Ffr].
+  assert (Hfst : map fst starts = (map fst bgs ++ map fst arr)%list).
+  { unfold starts. rewrite map_app, !map_map. cbn. reflexivity. }
+  assert (Hstart_ok : forall id o, In (id, o) starts -> out_ok (s_db s) t 0 o).
+  { intros id o Hin. unfold starts in Hin. apply in_app_or in Hin. destruct Hin as [Hin|Hin]; apply in_map_iff in Hin;
+      destruct Hin as [x [Hx Hin]]; inversion Hx; subst.
+    - apply start_bg_ok.
+    - apply start_req_ok. eapply Forall_forall in Hwf; [exact Hwf|exact Hin]. }
+  (* every old instance's step is either "nothing happened" or satisfies the discipline *)
+  assert (Hstep : forall i, In i (s_insts s) ->
+                            inst_step cfg t ds i = mkOut (i_st i) [] None \/ out_ok (s_db s) t (i_next i) (inst_step cfg t ds i)).
+  { intros i Hi. unfold inst_step. pose proof (proj1 (Forall_forall _ _) HI i Hi) as [Hst [_ Hexp]].
+    apply run_inst_ok; [exact U|exact Hst|].
+    intros n c Hin. apply deliveries_for_in in Hin. destruct (Hdel _ _ _ Hin) as [p [Hp [Hid [Hn Hr]]]].
+    exists (pd_sub p). split.
+    - pose proof (proj1 (Forall_forall _ _) HP p Hp) as Hpk. unfold pend_ok in Hpk. rewrite Hr in Hpk. exact Hpk.
+    - intros k E. destruct (Hexp k n E) as [_ Hk]. apply Hk; assumption. }
+  set (PL := (pl ++ pl1 ++ pl2)%list).
+  assert (HPL : forall p, In p PL -> In p (s_pend s) \/
+               (exists i, In i (s_insts s) /\ In p (number_subs (i_id i) (s_group s) (i_next i) (o_subs (inst_step cfg t ds i)))) \/
+               (exists id o, In (id, o) starts /\ In p (number_subs id (s_group s) 0 (o_subs o)))).
+  { intros p Hp. unfold PL in Hp. apply in_app_or in Hp. destruct Hp as [Hp|Hp]; [left; apply Hsub; exact Hp|].
+    apply in_app_or in Hp. destruct Hp as [Hp|Hp]; [right; left; apply R1b; exact Hp|right; right; apply R2b; exact Hp]. }
+  split; [exact U|]. split; [|split].
+  - (* pending submissions *)
+    apply Forall_forall. intros p Hp. destruct (HPL p Hp) as [Hold|[[i [Hi Hn]]|[id [o [Ho Hn]]]]].
+    + eapply pend_ok_mono; [apply prom_le_refl|exact Et|]. eapply Forall_forall; [exact HP|exact Hold].
+    + destruct (Hstep i Hi) as [E|[Hs _]].
+      * rewrite E in Hn. cbn in Hn. contradiction.
+      * eapply new_pend_ok; eassumption.
+    + destruct (Hstart_ok id o Ho) as [Hs _]. eapply new_pend_ok; eassumption.
+  - (* instances *)
+    cbn. apply Forall_app. split; apply Forall_forall; intros i' Hi'.
+    + destruct (R1a i' Hi') as [i [Hi [Eid [Est Enx]]]]. destruct i' as [id' st' nx']. cbn in *. subst id' st' nx'.
+      pose proof (proj1 (Forall_forall _ _) HI i Hi) as [Hst [Hlt Hexp]].
+      eapply inst_after with (g := s_group s) (st := i_st i); [exact Hst|apply Hstep; exact Hi| |].
+      * intros k n E. apply (Hexp k n E).
+      * intros p Hp Hid. destruct (HPL p Hp) as [Hold|[[j [Hj Hn]]|[id [o [Ho Hn]]]]].
+        -- left. split; [apply Hlt; assumption|]. intros k E. destruct (Hexp k _ E) as [_ Hk]. apply Hk; auto.
+        -- right. destruct (number_subs_in _ _ _ _ _ Hn) as [Hpid _].
+           assert (i = j) by (eapply inst_same_id; eauto; congruence). subst j. exact Hn.
+        -- exfalso. destruct (number_subs_in _ _ _ _ _ Hn) as [Hpid _].
+           assert (Hin : In id (map fst starts)) by (apply in_map_iff; exists (id, o); tauto). rewrite Hfst in Hin.
+           destruct (Ffr id Hin) as [Fi _]. apply (Fi i Hi). congruence.
+    + destruct (R2a i' Hi') as [o [Ho [Est Enx]]]. destruct i' as [id' st' nx']. cbn in *. subst st' nx'.
+      assert (Hin : In id' (map fst starts)) by (apply in_map_iff; exists (id', o); tauto). rewrite Hfst in Hin.
+      destruct (Ffr id' Hin) as [Fi Fp].
+      change (List.length (o_subs o)) with (0 + List.length (o_subs o))%nat.
+      eapply inst_after with (g := s_group s) (st := CDone); [exact I|right; eapply Hstart_ok; exact Ho|intros; discriminate|].
+      intros p Hp Hid. destruct (HPL p Hp) as [Hold|[[j [Hj Hn]]|[id [o' [Ho' Hn]]]]].
+      * exfalso. apply (Fp p Hold Hid).
+      * exfalso. destruct (number_subs_in _ _ _ _ _ Hn) as [Hpid _]. apply (Fi j Hj). congruence.
+      * right. destruct (number_subs_in _ _ _ _ _ Hn) as [Hpid _]. assert (Eid : id = id') by congruence.
+        rewrite Eid in Ho', Hn.
+        assert (Hnd : NoDup (map fst starts)) by (rewrite Hfst; exact Fnd).
+        assert (o = o') by (apply (starts_same_id starts id' o o' Hnd Ho Ho')). subst o'. exact Hn.
+  - (* instance ids stay distinct *)
+    cbn. rewrite map_app.
+    assert (Hnd : NoDup (map fst starts)) by (rewrite Hfst; exact Fnd).
+    specialize (R1d ND). specialize (R2d Hnd).
+    clear - R1d R2d R1c R2c Ffr Hfst. revert R1d R1c. generalize (map i_id il1) as xs.
+    induction xs as [|x xs IH]; cbn; intros N1 C1; [exact R2d|]. inversion N1; subst. constructor.
+    + rewrite in_app_iff. intros [Hx|Hx]; [contradiction|].
+      apply R2c in Hx. rewrite Hfst in Hx. destruct (Ffr x Hx) as [Fi _].
+      specialize (C1 x (or_introl eq_refl)). apply in_map_iff in C1. destruct C1 as [i [Ei Hi]]. apply (Fi i Hi Ei).
+    + apply IH; [assumption|]. intros id Hid. apply C1. right. exact Hid.
+Qed.
+
+(* ---------- executing a batch ---------- *)
+
+Lemma limit_take_in : forall {A} lim (l : list A) x, In x (limit_take lim l) -> In x l.
+Proof.
+  intros A lim l x H. unfold limit_take in H. destruct (lim <? 0); [exact H|].
+  revert l H. induction (Z.to_nat lim) as [|n IH]; intros l H; cbn in H; [contradiction|].
+  destruct l as [|y l]; [contradiction|]. destruct H as [H|H]; [left; exact H|right; apply IH; exact H].
+Qed.
+
+Lemma search_promises_in : forall d q st tg lim sid rows last recs,
+    ex_search_promises d q st tg lim sid = Some (RPromises rows last recs) -> forall p, In p recs -> In p (promises d).
+Proof.
+  intros d q st tg lim sid rows last recs H p Hp. unfold ex_search_promises in H.
+  match type of H with context [fold_right ?f ?a ?l] => remember (fold_right f a l) as fr eqn:Efr end.
+  destruct fr as [asc|]; [|discriminate]. inversion H; subst. apply limit_take_in in Hp. apply in_rev in Hp.
+  clear H. revert asc Efr Hp. generalize (promises d) as ps.
+  induction ps as [|x ps IH]; cbn; intros asc Efr Hp.
+  - inversion Efr; subst. contradiction.
+  - match type of Efr with context [fold_right ?f ?a ps] => destruct (fold_right f a ps) as [l|] eqn:E end; [|discriminate].
+    destruct (below sid (p_sort x) && like (star_to_pct q) (p_id x) && in_mask (p_state x) (mask_of st)).
+    + destruct (tags_match (p_tags x) tg) as [[|]|]; inversion Efr; subst.
+      * destruct Hp as [Hp|Hp]; [left; exact Hp|right; eapply IH; [reflexivity|exact Hp]].
+      * right. eapply IH; [reflexivity|exact Hp].
+    + inversion Efr; subst. right. eapply IH; [reflexivity|exact Hp].
+Qed.
+
+Lemma created_prec : forall d pc, find_promise (cp_id pc) d = None ->
+    prec (fst (ex_create_promise d pc)) (created_promise pc).
+Proof.
+  intros d pc F. unfold ex_create_promise. rewrite F. cbn. exists (new_promise pc (next_p d)). split.
+  - apply in_or_app. right. left. reflexivity.
+  - split; [unfold ceq; cbn; tauto|]. intros Hn. cbn in Hn. unfold Pending in Hn. contradiction.
+Qed.
+
+Lemma exec_res_for : forall d c h d' r, prom_uniq d -> accepts c = true -> exec d c h = Some (d', r) -> res_for d' c r.
+Proof.
+  intros d c h d' r U A H. destruct c; cbn in H; unfold alter in H;
+    try (inversion H; subst; exact I);
+    try (destruct (ex_search_schedules _ _ _ _ _); inversion H; subst; exact I);
+    try (destruct (ex_read_enqueueable _ _ _); inversion H; subst; exact I);
+    try (destruct (ex_create_tasks _ _ _); inversion H; subst; exact I).
+  - (* ReadPromise *)
+    inversion H; subst. unfold ex_read_promise. destruct (find_promise id d') as [p|] eqn:F; cbn; [|constructor].
+    destruct (find_promise_in _ _ _ F) as [Hin Hid]. constructor; [|constructor]. split; [apply (prec_of_row d' p Hin)|exact Hid].
+  - (* ReadPromises *)
+    inversion H; subst. cbn. apply Forall_forall. intros p Hp. apply limit_take_in in Hp. apply filter_In in Hp.
+    apply prec_of_row. tauto.
+  - (* SearchPromises *)
+    destruct (ex_search_promises d idq states tags limit sortid) as [r0|] eqn:E; [|discriminate]. inversion H; subst.
+    destruct r; try exact I. cbn. apply Forall_forall. intros p Hp. apply prec_of_row. eapply search_promises_in; eassumption.
+  - (* CreatePromise *)
+    inversion H; subst. cbn. eexists. split; [reflexivity|].
+    unfold ex_create_promise. destruct (find_promise (cp_id c) d) as [p|] eqn:F; cbn; [left; reflexivity|right].
+    pose proof (created_prec d c F) as Hc. unfold ex_create_promise in Hc. rewrite F in Hc. exact Hc.
+  - (* UpdatePromise *)
+    inversion H; subst. cbn. intros Hn. cbn in A.
+    destruct (filter (upd_guard c) (promises d)) as [|p l] eqn:Ef; [cbn in Hn; discriminate|].
+    assert (Hp : In p (filter (upd_guard c) (promises d))) by (rewrite Ef; left; reflexivity).
+    apply filter_In in Hp. destruct Hp as [Hp Hg]. exists (complete_p c p). split.
+    + apply in_map_iff. exists p. rewrite Hg. tauto.
+    + unfold upd_guard in Hg. apply andb_true_iff in Hg. destruct Hg as [Hg _]. apply String.eqb_eq in Hg.
+      split; [cbn; exact Hg|]. unfold ucompl; cbn. tauto.
+  - (* CreatePromiseAndTask *)
+    unfold ex_create_promise_and_task in H.
+    destruct (find_promise (cp_id pc) d) as [p|] eqn:F.
+    + unfold ex_create_promise in H. rewrite F in H. cbn in H. inversion H; subst. cbn. eexists _, _. split; [reflexivity|left; reflexivity].
+    + pose proof (created_prec d pc F) as Hc. destruct (ex_create_promise d pc) as [d1 pr] eqn:E1.
+      assert (pr = 1) by (unfold ex_create_promise in E1; rewrite F in E1; inversion E1; reflexivity). subst pr. cbn in H, Hc.
+      pose proof (ct_promises d1 tc) as Hct. destruct (ex_create_task d1 tc) as [d2 tr]. cbn in Hct. inversion H; subst.
+      cbn. eexists _, _. split; [reflexivity|right]. destruct Hc as [q [Hq Hrest]]. exists q. rewrite Hct. tauto.
+Qed.
+
+Definition sub_accepts (cs : list command) : Prop := Forall (fun c => accepts c = true) cs.
+
+Lemma exec_txn_spec : forall cs hs d d' rs,
+    prom_uniq d -> sub_accepts cs -> exec_txn d cs hs = Some (d', rs) ->
+    prom_le d d' /\ prom_uniq d' /\ Forall2 (res_for d') cs rs.
+Proof.
+  induction cs as [|c cs IH]; intros hs d d' rs U A H; cbn in H.
+  - inversion H; subst. split; [apply prom_le_refl|split; [exact U|constructor]].
+  - inversion A; subst. destruct (exec d c (hd None hs)) as [[d1 r]|] eqn:E; [|discriminate].
+    destruct (exec_txn d1 cs (tl hs)) as [[d2 rs2]|] eqn:E2; [|discriminate]. inversion H; subst.
+    destruct (exec_prom_le _ _ _ _ _ U H2 E) as [L1 U1]. destruct (IH _ _ _ _ U1 H3 E2) as [L2 [U2 R2]].
+    split; [apply (prom_le_trans d d1 d' U U1 L1 L2)|]. split; [exact U2|]. constructor; [|exact R2].
+    eapply res_for_mono; [exact L2|]. exact (exec_res_for d c (hd None hs) d1 r U H2 E).
+Qed.
+
+Lemma Forall2_res_mono : forall d d' cs rs, prom_le d d' -> Forall2 (res_for d) cs rs -> Forall2 (res_for d') cs rs.
+Proof. intros d d' cs rs L H. induction H; constructor; [eapply res_for_mono; eassumption|assumption]. Qed.
+
+Lemma exec_batch_spec : forall txns d d' rss,
+    prom_uniq d -> Forall (fun x => sub_accepts (fst x)) txns -> exec_batch d txns = Some (d', rss) ->
+    prom_le d d' /\ prom_uniq d' /\ Forall2 (fun x rs => Forall2 (res_for d') (fst x) rs) txns rss.
+Proof.
+  induction txns as [|[cs hs] txns IH]; intros d d' rss U A H; cbn in H.
+  - inversion H; subst. split; [apply prom_le_refl|split; [exact U|constructor]].
+  - inversion A; subst. destruct (exec_txn d cs hs) as [[d1 rs]|] eqn:E; [|discriminate].
+    destruct (exec_batch d1 txns) as [[d2 rss2]|] eqn:E2; [|discriminate]. inversion H; subst.
+    destruct (exec_txn_spec _ _ _ _ _ U H2 E) as [L1 [U1 R1]]. destruct (IH _ _ _ U1 H3 E2) as [L2 [U2 R2]].
+    split; [apply (prom_le_trans d d1 d' U U1 L1 L2)|]. split; [exact U2|]. constructor; [|exact R2]. cbn.
+    eapply Forall2_res_mono; eassumption.
+Qed.
+
+Lemma sub_at_accepts : forall d t cs, Forall (cmd_at d t) cs -> sub_accepts cs.
+Proof.
+  intros d t cs H. eapply Forall_impl; [|exact H]. intros c Hc. destruct c; cbn in *; try reflexivity.
+  eapply up_ok_final; eassumption.
+Qed.
+
+Lemma batch_txns_spec : forall d now batch pl txns,
+    Forall (pend_ok d now) pl -> batch_txns batch pl = Some txns ->
+    Forall (fun x => exists t, t <= now /\ Forall (cmd_at d t) (fst x)) txns.
 Proof.
   induction batch as [|e batch IH]; intros pl txns Hp H; cbn in H.
   - inversion H; constructor.
   - destruct (find_pend (ex_id e) (ex_n e) pl) as [p|] eqn:F; [|discriminate].
     destruct (pd_sub p) eqn:Es; try discriminate. destruct (pd_ready p) eqn:Er; [discriminate|].
     destruct (batch_txns batch pl) as [l|] eqn:Eb; [|discriminate]. inversion H; subst.
-    constructor; [|eapply IH; eauto]. cbn.
-    apply find_some in F. destruct F as [Fin _].
-    pose proof (proj1 (Forall_forall _ _) Hp p Fin Er) as [t0 [Ht Hs]]. rewrite Es in Hs. exists t0. split; assumption.
+    constructor; [|eapply IH; eauto]. cbn. apply find_some in F. destruct F as [Fin _].
+    pose proof (proj1 (Forall_forall _ _) Hp p Fin) as Hk. unfold pend_ok in Hk. rewrite Er, Es in Hk. exact Hk.
 Qed.
 
-(* ---------- what a tick can show: every observation is the output of one coroutine step at time t ---------- *)
-
-Definition tick_out (cfg : config) (s : sys) (t : Z) (o : step_out) : Prop :=
-  (exists i dls, In i (s_insts s) /\ o = run_inst cfg (i_st i) dls t (i_next i)) \/
-  (exists b, o = start_bg cfg b t 0) \/ (exists q, o = start_req q t 0).
-
-Definition obs_of_out (x : obs) (o : step_out) : Prop :=
-  exists id, x = OInst id (o_subs o) (visible_resp (o_resp o)).
-
-Lemma inst_obs_shape : forall id o x, In x (inst_obs id o) -> obs_of_out x o.
+Lemma batch_txns_set_ready : forall batch id n c pl,
+    (forall e, In e batch -> pend_is (ex_id e) (ex_n e) (mkPend id n (SStore []) 0 None) = false) ->
+    batch_txns batch (set_ready id n c pl) = batch_txns batch pl.
 Proof.
-  intros id o x H. unfold inst_obs in H. exists id.
-  destruct (o_subs o) eqn:E1; destruct (visible_resp (o_resp o)) eqn:E2; cbn in H;
-    try contradiction; destruct H as [H|[]]; subst; reflexivity.
+  induction batch as [|e batch IH]; intros id n c pl H; cbn; [reflexivity|].
+  pose proof (find_pend_set_ready_other id n c (ex_id e) (ex_n e) pl (H e (or_introl eq_refl))) as Hf.
+  rewrite (IH id n c pl) by (intros; apply H; right; assumption).
+  destruct (find_pend (ex_id e) (ex_n e) (set_ready id n c pl)) as [p1|], (find_pend (ex_id e) (ex_n e) pl) as [p2|];
+    cbn in Hf; try discriminate; [|reflexivity].
+  inversion Hf. rewrite H3, H4. reflexivity.
+Qed.
+
+Lemma set_batch_ready_ok : forall d now batch txns rss pl,
+    batch_txns batch pl = Some txns -> nodup_items batch = true ->
+    Forall (pend_ok d now) pl ->
+    match rss with Some l => Forall2 (fun x rs => Forall2 (res_for d) (fst x) rs) txns l | None => True end ->
+    Forall (pend_ok d now) (set_batch_ready batch rss pl).
+Proof.
+  induction batch as [|e batch IH]; intros txns rss pl Hb Hn Hp Hr; cbn; [exact Hp|].
+  cbn in Hb, Hn. destruct (find_pend (ex_id e) (ex_n e) pl) as [p|] eqn:F; [|discriminate].
+  destruct (pd_sub p) eqn:Es; try discriminate. destruct (pd_ready p) eqn:Er; [discriminate|].
+  destruct (batch_txns batch pl) as [l|] eqn:Eb; [|discriminate]. inversion Hb; subst. clear Hb.
+  apply andb_true_iff in Hn. destruct Hn as [Hn1 Hn2]. apply negb_true_iff in Hn1.
+  eapply IH with (txns := l).
+  - rewrite batch_txns_set_ready; [exact Eb|]. intros e' He'. unfold pend_is; cbn.
+    destruct (String.eqb (ex_id e) (ex_id e') && Nat.eqb (ex_n e) (ex_n e')) eqn:E12.
+    + exfalso. assert (existsb (fun e'0 => String.eqb (ex_id e) (ex_id e'0) && Nat.eqb (ex_n e) (ex_n e'0)) batch = true); [|congruence].
+      apply existsb_exists. exists e'. tauto.
+    + reflexivity.
+  - exact Hn2.
+  - apply set_ready_forall; [exact Hp|]. intros p' Hp'. rewrite F in Hp'. inversion Hp'; subst p'.
+    unfold pend_ok; cbn. rewrite Es. destruct rss as [[|rs rss]|]; cbn; try exact I.
+    destruct (ex_lose e); [exact I|]. inversion Hr as [|? ? ? ? Hhd Htl]; subst. exact Hhd.
+  - destruct rss as [[|rs rss]|]; cbn; try exact I.
+    + inversion Hr.
+    + inversion Hr as [|? ? ? ? Hhd Htl]; subst. exact Htl.
+Qed.
+
+
+(* an instance's obligations towards the pending list only mention (id, n, submission) *)
+Definition key3 (p : pend) := (pd_id p, pd_n p, pd_sub p).
+
+Lemma in_keys : forall pl pl' p, map key3 pl = map key3 pl' -> In p pl' -> exists q, In q pl /\ key3 q = key3 p.
+Proof.
+  intros pl pl' p E Hp. assert (Hk : In (key3 p) (map key3 pl')) by (apply in_map; exact Hp).
+  rewrite <- E in Hk. apply in_map_iff in Hk. destruct Hk as [q [Hq Hin]]. exists q. tauto.
+Qed.
+
+Lemma inst_ok_keys : forall d pl pl' i, map key3 pl = map key3 pl' -> inst_ok d pl i -> inst_ok d pl' i.
+Proof.
+  intros d pl pl' i E [A [B C]]. split; [exact A|]. split.
+  - intros p Hp Hid. destruct (in_keys _ _ _ E Hp) as [q [Hq Hk]]. unfold key3 in Hk. inversion Hk as [[K1 K2 K3]].
+    assert (Hq2 : pd_id q = i_id i) by congruence. pose proof (B q Hq Hq2). lia.
+  - intros k n Es. destruct (C k n Es) as [C1 C2]. split; [exact C1|]. intros p Hp Hid Hn.
+    destruct (in_keys _ _ _ E Hp) as [q [Hq Hk]]. unfold key3 in Hk. inversion Hk as [[K1 K2 K3]].
+    assert (Hq2 : pd_id q = i_id i) by congruence. assert (Hq3 : pd_n q = n) by congruence.
+    pose proof (C2 q Hq Hq2 Hq3) as HH. first [exact HH|rewrite K3 in HH; exact HH|rewrite <- K3; exact HH].
+Qed.
+
+Lemma set_batch_ready_keys : forall batch rss pl, map key3 (set_batch_ready batch rss pl) = map key3 pl.
+Proof.
+  induction batch as [|e batch IH]; intros rss pl; cbn; [reflexivity|]. rewrite IH. apply set_ready_keys.
+Qed.
+
+Lemma SInv_exec : forall cfg s batch s' ob, SInv s -> step cfg s (DExec batch) = Some (s', ob) -> SInv s'.
+Proof.
+  intros cfg s batch s' ob [U [HP [HI ND]]] H. cbn in H.
+  destruct (batch_txns batch (s_pend s)) as [txns|] eqn:Eb; [|discriminate].
+  destruct (negb (nodup_items batch)) eqn:En; [discriminate|]. apply negb_false_iff in En.
+  destruct (c_fifo cfg && negb (fifo_ok batch (s_pend s))); [discriminate|].
+  pose proof (batch_txns_spec _ _ _ _ _ HP Eb) as Ht.
+  assert (Hacc : Forall (fun x => sub_accepts (fst x)) txns).
+  { eapply Forall_impl; [|exact Ht]. intros x [t [_ Hx]]. eapply sub_at_accepts; exact Hx. }
+  destruct (exec_batch (s_db s) txns) as [[d' rss]|] eqn:Ee; inversion H; subst; clear H; unfold SInv; cbn.
+  - destruct (exec_batch_spec _ _ _ _ U Hacc Ee) as [L [U' R]].
+    split; [exact U'|]. split; [|split; [|exact ND]].
+    + eapply set_batch_ready_ok; [exact Eb|exact En| |exact R].
+      eapply Forall_impl; [|exact HP]. intros p. apply pend_ok_mono; [exact L|lia].
+    + eapply Forall_impl; [|exact HI]. intros i Hi. eapply inst_ok_keys; [symmetry; apply set_batch_ready_keys|].
+      eapply inst_ok_mono; eassumption.
+  - split; [exact U|]. split; [|split; [|exact ND]].
+    + eapply set_batch_ready_ok; [exact Eb|exact En|exact HP|exact I].
+    + eapply Forall_impl; [|exact HI]. intros i Hi. eapply inst_ok_keys; [symmetry; apply set_batch_ready_keys|exact Hi].
+Qed.
+
+Lemma SInv_set_ready : forall s id n c p,
+    SInv s -> find_pend id n (s_pend s) = Some p -> rdy_ok (s_db s) (pd_sub p) c ->
+    SInv (mkSys (s_db s) (s_now s) (s_group s) (s_insts s) (set_ready id n c (s_pend s))).
+Proof.
+  intros s id n c p [U [HP [HI ND]]] F Hr. unfold SInv; cbn. split; [exact U|]. split; [|split; [|exact ND]].
+  - apply set_ready_forall; [exact HP|]. intros p' Hp'. rewrite F in Hp'. inversion Hp'; subst p'. unfold pend_ok; cbn. exact Hr.
+  - eapply Forall_impl; [|exact HI]. intros i Hi. eapply inst_ok_keys; [symmetry; apply set_ready_keys|exact Hi].
+Qed.
+
+Lemma SInv_step : forall cfg s d s' ob, SInv s -> dir_wf d -> step cfg s d = Some (s', ob) -> SInv s'.
+Proof.
+  intros cfg s d s' ob HS Hwf H. destruct d.
+  - eapply SInv_tick; eassumption.
+  - eapply SInv_exec; eassumption.
+  - cbn in H. destruct (find_pend id n (s_pend s)) as [p|] eqn:F; [|discriminate].
+    destruct (unready p); inversion H; subst. eapply SInv_set_ready; [exact HS|exact F|].
+    destruct (pd_sub p); exact I.
+  - cbn in H. destruct (find_pend id n (s_pend s)) as [p|] eqn:F; [|discriminate].
+    destruct (pd_sub p) eqn:Es; try discriminate. destruct (pd_ready p); inversion H; subst.
+    eapply SInv_set_ready; [exact HS|exact F|]. rewrite Es. destruct res; exact I.
+  - cbn in H. destruct (find_pend id n (s_pend s)) as [p|] eqn:F; [|discriminate].
+    destruct (pd_sub p) eqn:Es; try discriminate. destruct (pd_ready p); inversion H; subst.
+    eapply SInv_set_ready; [exact HS|exact F|]. rewrite Es. destruct res; exact I.
+  - cbn in H. inversion H; subst. destruct HS as [U _]. unfold SInv; cbn. repeat split; try exact U; constructor.
+Qed.
+
+(* ---------- what a tick can show ---------- *)
+
+Definition obs_out (d : db) (t : Z) (x : obs) : Prop :=
+  exists id o next, x = OInst id (o_subs o) (visible_resp (o_resp o)) /\ out_ok d t next o.
+
+Lemma inst_obs_cases : forall id o x, In x (inst_obs id o) -> x = OInst id (o_subs o) (visible_resp (o_resp o)) /\ (o_subs o <> [] \/ visible_resp (o_resp o) <> None).
+Proof.
+  intros id o x H. unfold inst_obs in H.
+  destruct (o_subs o) eqn:E1; destruct (visible_resp (o_resp o)) eqn:E2; cbn in H; try contradiction;
+    destruct H as [H|[]]; subst; (split; [reflexivity|]); try (left; discriminate); right; discriminate.
 Qed.
 
 Lemma run_insts_obs : forall cfg now g ds il x,
     In x (snd (run_insts cfg now g ds il)) ->
-    exists i dls, In i il /\ obs_of_out x (run_inst cfg (i_st i) dls now (i_next i)).
+    exists i, In i il /\ In x (inst_obs (i_id i) (inst_step cfg now ds i)).
 Proof.
   induction il as [|i il IH]; intros x H; cbn in H; [contradiction|].
   destruct (run_insts cfg now g ds il) as [[il2 pl2] ob2] eqn:E. cbn in H. apply in_app_or in H. destruct H as [H|H].
-  - exists i, (deliveries_for (i_id i) ds). split; [left; reflexivity|]. eapply inst_obs_shape; eassumption.
-  - destruct (IH x H) as [j [dls [Hj Ho]]]. exists j, dls. split; [right; assumption|assumption].
+  - exists i. split; [left; reflexivity|exact H].
+  - destruct (IH x H) as [j [Hj Ho]]. exists j. split; [right; assumption|assumption].
 Qed.
 
 Lemma start_insts_obs : forall starts g x,
-    In x (snd (start_insts starts g)) -> exists id o, In (id, o) starts /\ obs_of_out x o.
+    In x (snd (start_insts starts g)) -> exists id o, In (id, o) starts /\ In x (inst_obs id o).
 Proof.
   induction starts as [|[id o] rest IH]; intros g x H; cbn in H; [contradiction|].
   destruct (start_insts rest g) as [[il pl] ob] eqn:E. cbn in H. apply in_app_or in H. destruct H as [H|H].
-  - exists id, o. split; [left; reflexivity|]. eapply inst_obs_shape; eassumption.
+  - exists id, o. split; [left; reflexivity|exact H].
   - specialize (IH g x). rewrite E in IH. destruct (IH H) as [id' [o' [Hin Ho]]]. exists id', o'. split; [right; assumption|assumption].
 Qed.
 
-Lemma tick_obs : forall cfg s t dl bgs arr s' ob,
-    step cfg s (DTick t dl bgs arr) = Some (s', ob) ->
-    s_now s <= t /\ Forall (fun x => exists o, tick_out cfg s t o /\ obs_of_out x o) ob.
+Lemma tick_obs_ok : forall cfg s t dl bgs arr s' ob,
+    SInv s -> dir_wf (DTick t dl bgs arr) -> step cfg s (DTick t dl bgs arr) = Some (s', ob) ->
+    s_now s <= t /\ s_db s' = s_db s /\ Forall (obs_out (s_db s) t) ob.
 Proof.
-  intros cfg s t dl bgs arr s' ob H. cbn in H.
+  intros cfg s t dl bgs arr s' ob [U [HP [HI ND]]] Hwf H. cbn in H, Hwf.
   destruct (t <? s_now s) eqn:Et; [discriminate|]. apply Z.ltb_ge in Et. split; [exact Et|].
-  destruct (take_deliveries dl (s_pend s)) as [[ds pl]|]; [|discriminate].
+  destruct (negb (ids_fresh s (map fst bgs ++ map fst arr))); [discriminate|].
+  destruct (take_deliveries dl (s_pend s)) as [[ds pl]|] eqn:Etd; [|discriminate].
+  destruct (take_deliveries_spec _ _ _ _ Etd) as [Hsub Hdel].
   destruct (run_insts cfg t (s_group s) ds (s_insts s)) as [[il1 pl1] ob1] eqn:E1.
-  destruct (start_insts _ (s_group s)) as [[il2 pl2] ob2] eqn:E2. inversion H; subst; clear H.
+  match type of H with context [start_insts ?st ?g] => set (starts := st) in * end.
+  destruct (start_insts starts (s_group s)) as [[il2 pl2] ob2] eqn:E2.
+  inversion H; subst; clear H. split; [reflexivity|].
   apply Forall_forall. intros x Hx. apply in_app_or in Hx. destruct Hx as [Hx|Hx].
-  - pose proof (run_insts_obs cfg t (s_group s) ds (s_insts s) x) as H1. rewrite E1 in H1.
-    destruct (H1 Hx) as [i [dls [Hi Ho]]]. eexists. split; [|exact Ho]. left. exists i, dls. tauto.
-  - match type of E2 with start_insts ?st _ = _ => pose proof (start_insts_obs st (s_group s) x) as H2 end.
-    rewrite E2 in H2. destruct (H2 Hx) as [id [o [Hin Ho]]].
-    exists o. split; [|exact Ho]. apply in_app_or in Hin. destruct Hin as [Hin|Hin]; apply in_map_iff in Hin;
-      destruct Hin as [y [Hy _]]; inversion Hy; subst; [right; left; eexists; reflexivity|right; right; eexists; reflexivity].
+  - pose proof (run_insts_obs cfg t (s_group s) ds (s_insts s) x) as R. rewrite E1 in R. destruct (R Hx) as [i [Hi Hin]].
+    destruct (inst_obs_cases _ _ _ Hin) as [Ex Hne]. exists (i_id i), (inst_step cfg t ds i), (i_next i). split; [exact Ex|].
+    pose proof (proj1 (Forall_forall _ _) HI i Hi) as [Hst [_ Hexp]].
+    assert (Hr : inst_step cfg t ds i = mkOut (i_st i) [] None \/ out_ok (s_db s) t (i_next i) (inst_step cfg t ds i)).
+    { unfold inst_step. apply run_inst_ok; [exact U|exact Hst|].
+      intros n c Hc. apply deliveries_for_in in Hc. destruct (Hdel _ _ _ Hc) as [p [Hp [Hid [Hn Hr]]]].
+      exists (pd_sub p). split.
+      - pose proof (proj1 (Forall_forall _ _) HP p Hp) as Hpk. unfold pend_ok in Hpk. rewrite Hr in Hpk. exact Hpk.
+      - intros k E. destruct (Hexp k n E) as [_ Hk]. apply Hk; assumption. }
+    destruct Hr as [Hr|Hr]; [|exact Hr]. rewrite Hr in Hne. cbn in Hne. destruct Hne as [Hne|Hne]; contradiction.
+  - pose proof (start_insts_obs starts (s_group s) x) as R. rewrite E2 in R. destruct (R Hx) as [id [o [Hin Hobs]]].
+    destruct (inst_obs_cases _ _ _ Hobs) as [Ex _]. exists id, o, 0%nat. split; [exact Ex|].
+    unfold starts in Hin. apply in_app_or in Hin. destruct Hin as [Hin|Hin]; apply in_map_iff in Hin;
+      destruct Hin as [y [Hy Hin]]; inversion Hy; subst.
+    + apply start_bg_ok.
+    + apply start_req_ok. eapply Forall_forall in Hwf; [exact Hwf|exact Hin].
 Qed.
 
-Lemma tick_out_ok : forall cfg s t o, SInv s -> tick_out cfg s t o -> out_ok t o.
+(* the transactions of an executed batch *)
+Lemma exec_obs : forall cfg s batch s' ob,
+    SInv s -> step cfg s (DExec batch) = Some (s', ob) ->
+    exists txns, Forall (fun x => exists t, t <= s_now s /\ Forall (cmd_at (s_db s) t) (fst x)) txns /\
+                 ((exists rss, exec_batch (s_db s) txns = Some (s_db s', rss) /\ ob = [OExec (map fst txns) (Some rss) (s_db s')]) \/
+                  (exec_batch (s_db s) txns = None /\ s_db s' = s_db s /\ ob = [OExec (map fst txns) None (s_db s)])).
 Proof.
-  intros cfg s t o [_ Hi] [[i [dls [Hin Ho]]]|[[b Ho]|[q Ho]]]; subst.
-  - apply run_inst_ok. eapply Forall_forall in Hi; [exact Hi|exact Hin].
-  - apply start_bg_ok.
-  - apply start_req_ok.
+  intros cfg s batch s' ob [U [HP _]] H. cbn in H.
+  destruct (batch_txns batch (s_pend s)) as [txns|] eqn:Eb; [|discriminate].
+  destruct (negb (nodup_items batch)); [discriminate|].
+  destruct (c_fifo cfg && negb (fifo_ok batch (s_pend s))); [discriminate|].
+  exists txns. split; [eapply batch_txns_spec; eassumption|].
+  destruct (exec_batch (s_db s) txns) as [[d' rss]|] eqn:Ee; inversion H; subst; cbn.
+  - left. exists rss. tauto.
+  - right. tauto.
+Qed.
+
+Lemma other_steps_db : forall cfg s d s' ob,
+    step cfg s d = Some (s', ob) -> match d with DTick _ _ _ _ | DExec _ => False | _ => True end -> s_db s' = s_db s /\ ob = [].
+Proof.
+  intros cfg s d s' ob H Hd. destruct d; try contradiction; cbn in H.
+  - destruct (find_pend id n (s_pend s)); [|discriminate]. destruct (unready p); inversion H; subst; tauto.
+  - destruct (find_pend id n (s_pend s)); [|discriminate]. destruct (pd_sub p); try discriminate.
+    destruct (pd_ready p); inversion H; subst; tauto.
+  - destruct (find_pend id n (s_pend s)); [|discriminate]. destruct (pd_sub p); try discriminate.
+    destruct (pd_ready p); inversion H; subst; tauto.
+  - inversion H; subst; tauto.
 Qed.
